@@ -13,7 +13,7 @@ import subprocess
 from engine import Check, validate_traces, pmap, run
 import scriptgen as sg
 import regen
-from zoo import ZOO, ZOO_NAMED, zoo_files
+from zoo import ZOO, ZOO_NAMED, ZOO_NODIST, zoo_files
 
 TRACE = 'SPECIFICATION TraceSpec\nCHECK_DEADLOCK FALSE\n'
 TRAILER = '''
@@ -37,7 +37,7 @@ FIXED = ['build.bfg', 'options.bfg', 'sub/build.bfg', 'sub/subsrc.c',
          'listed.h', 'incdir/i1.h', 'extra/e1.c', 'extra/e2.c',
          'extra/notes.md', 'plat/p_linux.c', 'plat/p_windows.c', 'zz.c',
          'README.md', 'nc/n1.txt', 'nc/n.md'] + ZOO_NAMED
-NODIST = ['hidden.txt']
+NODIST = ['hidden.txt'] + ZOO_NODIST
 
 
 def files_for(decls):
